@@ -21,7 +21,7 @@ Inductive case :=
 | CSearch (m : fsmap) (needle filter_ : bytes) (obs : tobs)
 | CWrite (m : list (bytes * rle)) (obs : list (bool * bytes * rle)) (same_bytes : bool)
 | CArchive (file_cap total_cap : N) (es : list (entry rle)) (obs : aobs)
-| CSource (rows : list (bytes * list (bytes * bytes))) (obs : fsmap).
+| CSource (rows : list (bytes * list (bytes * bytes))) (obs : option fsmap).   (* None: OpenTraceSource failed *)
 
 (* ---------------------------------------------------------------- model side *)
 
@@ -117,7 +117,7 @@ Definition check_case (c : case) : bool :=
       list_eqb (fun e o => Bool.eqb (fst (fst e)) (fst (fst o)) && beqb (snd (fst e)) (snd (fst o)) && rle_eqb (snd e) (snd o))
                (map (fun e => (e_reg e, e_name e, e_data e)) (write_archive m)) obs
   | CArchive fc tc es obs => aobs_eqb (project_archive (read_archive rle_len fc tc es 0 [])) obs
-  | CSource rows obs => files_eqb beqb (sort_files (open_trace_source rows)) (sort_files obs)
+  | CSource rows obs => match obs with Some o => files_eqb beqb (sort_files (open_trace_source rows)) (sort_files o) | None => false end
   end.
 
 (* ---------------------------------------------------------------- the property, on the observed behaviour *)
@@ -213,6 +213,10 @@ Definition holds_on (c : case) : bool :=
       end
   | CSource rows obs =>
       (* every served key is a valid, non-escaping path and its content was recorded in some row *)
-      forallb (fun kd => negb (escapes (fst kd)) &&
-                         existsb (fun row => existsb (fun pd => beqb (snd pd) (snd kd)) (snd row)) rows) obs
+      match obs with
+      | None => true        (* the whole source was rejected *)
+      | Some o =>
+          forallb (fun kd => negb (escapes (fst kd)) &&
+                             existsb (fun row => existsb (fun pd => beqb (snd pd) (snd kd)) (snd row)) rows) o
+      end
   end.
